@@ -584,18 +584,21 @@ Lemma rfc3339_unfold : forall t,
   rfc3339 t =
   let '(y, m, d) := civil_from_days (t / 86400) in
   let s := t mod 86400 in
-  dec4 y ++ [x2d] ++ dec2 m ++ [x2d] ++ dec2 d ++ [x54]
+  dec_year y ++ [x2d] ++ dec2 m ++ [x2d] ++ dec2 d ++ [x54]
   ++ dec2 (s / 3600) ++ [x3a] ++ dec2 (s mod 3600 / 60) ++ [x3a] ++ dec2 (s mod 60) ++ [x5a].
 Proof. intro t. unfold rfc3339. destruct (civil_from_days (t / 86400)) as [[y m] d]. reflexivity. Qed.
 
-(* structure: always 20 bytes, separators at fixed positions *)
+(* structure, for years below 10000 (time.Format prints later years with more digits; rfc3339_year_10000):
+   20 bytes, separators at fixed positions *)
 Theorem rfc3339_shape : forall t,
+  fst (fst (civil_from_days (t / 86400))) < 10000 ->
   List.length (rfc3339 t) = 20%nat /\
   nth 4 (rfc3339 t) x00 = x2d /\ nth 7 (rfc3339 t) x00 = x2d /\ nth 10 (rfc3339 t) x00 = x54 /\
   nth 13 (rfc3339 t) x00 = x3a /\ nth 16 (rfc3339 t) x00 = x3a /\ nth 19 (rfc3339 t) x00 = x5a.
 Proof.
-  intro t. rewrite rfc3339_unfold. destruct (civil_from_days (t / 86400)) as [[y m] d].
-  cbv zeta. unfold dec4, dec2. cbn [app List.length nth]. repeat split; reflexivity.
+  intros t Hy. rewrite rfc3339_unfold. destruct (civil_from_days (t / 86400)) as [[y m] d].
+  cbn [fst] in Hy. apply Z.ltb_lt in Hy.
+  cbv zeta. unfold dec_year. rewrite Hy. unfold dec4, dec2. cbn [app List.length nth]. repeat split; reflexivity.
 Qed.
 
 (* every digit position holds an ASCII digit *)
